@@ -17,7 +17,9 @@ RULE = ("Hypothesis draws a non-singular, well-conditioned operator tree (produc
         "float64/complex128; |sign| = 1 (exactly +-1 for real operators); logdet == logabs. Non-trivial: a structural rule, "
         "|det| < 1, negative/complex sign, or a Krylov algorithm. Scalar multiples whose false annotation (open finding "
         "F-C05-scalar) is never read - they sit only below Product / Kronecker / BlockDiag nodes, which recurse factor by "
-        "factor - are judged, not excluded.")
+        "factor - are judged, not excluded."
+        " Further: leaf payloads scaled by 10^+-60 (10^+-7 in single precision; not below Unitary declarations); the"
+        " lazy inverse returned by cola.linalg.inv as (part of) the operand.")
 ASSUMPTIONS = [
     "tolerance: |logabs - ref| <= tol * max(1, |ref|, n), |sign - ref| <= tol with tol = 1e-8 (f64 trees), 2e-3 (trees containing f32), x100 for Lanczos/Arnoldi paths",
     "inputs are non-singular with cond <~ 1e3 by construction; in-contract refusals (Cholesky/Lanczos on operators not declared PSD/SelfAdjoint) are not failures",
@@ -107,6 +109,8 @@ def make_algs(case, n):
 def scale_leaves(node, sign):
     """copy of the tree with every dense-like payload multiplied by 10^(sign * 60) (10^(sign * 7) in single precision)"""
     node = dict(node)
+    if node["k"] == "ann" and node.get("a") in ("Unitary", "Stiefel"):
+        return node  # (a rescaled unitary matrix is not unitary any more: the declaration would become false)
     if "a" in node and node["k"] in ("dense", "tri", "lazify", "matmat"):
         a = IR.dec(node["a"])
         e = 7 if a.dtype in (np.float32, np.complex64) else 60
